@@ -175,6 +175,9 @@ class padding_values_fixed:
 
     def ensures(old, s, a, result):
         yield "margins-never-negative", both(result[0] >= 0, result[1] >= 0)
+        # C19 "the requested size when it fits beside the fixed margins": at its natural size a given-width child always fits, so
+        # neither fixed margin is given up (seed C19-f1 dropped self.right from the natural width: right margin 0 instead of 1)
+        yield "given-width-keeps-the-fixed-margins", implies(s._width_type == "given", both(result[0] >= s.left, result[1] >= s.right))
         yield "frame", both(*[eq(s.fields[k], old.fields[k]) for k in ("left", "right", "_align_type", "_align_amount", "_width_type", "_width_amount", "min_width")])
 
 
